@@ -28,6 +28,9 @@ CONFIGS = {
     "restore2": dict(callers="{1}", calls=7, inv=1, exits=0, timers=1, race="FALSE", misuse="FALSE", rest=2),
     "two":    dict(callers="{1, 2}", calls=5, inv=2, exits=0, timers=1, race="FALSE", misuse="FALSE"),
     "twox":   dict(callers="{1, 2}", calls=4, inv=2, exits=1, timers=1, race="FALSE", misuse="FALSE"),
+    # an internal extension (registers over the API from inside the runtime process) next to the external one
+    "internal":  dict(callers="{1}", calls=5, inv=2, exits=0, timers=1, race="FALSE", misuse="FALSE", ints='{"i1"}'),
+    "internal2": dict(callers="{1}", calls=6, inv=2, exits=0, timers=1, race="FALSE", misuse="FALSE", ints='{"i1"}'),
     "deep":   dict(callers="{1}", calls=8, inv=2, exits=1, timers=1, race="TRUE", misuse="FALSE"),
     # simulation only (lib/mcsim.py): bounds that exhaustive search could not cover
     "sim":    dict(callers="{1}", calls=16, inv=3, exits=1, timers=1, race="FALSE", misuse="TRUE", shut=0),
@@ -51,7 +54,7 @@ CONSTANTS
   MaxRestores = %(rest)d
   RaceTimer = %(race)s
   ExtSubs <- MCExtSubs
-  IntNames = {}
+  IntNames = %(ints)s
   Misuse = %(misuse)s
   PromptHelpers = TRUE
 INVARIANTS %(invariants)s
@@ -65,6 +68,7 @@ def cfg_text(name, invariants, constraint=None, asfound="{}"):
     p = dict(CONFIGS[name])
     p.setdefault("shut", 0)
     p.setdefault("rest", 0)
+    p.setdefault("ints", "{}")
     p.update(invariants=" ".join(invariants), constraint=("CONSTRAINT " + constraint) if constraint else "", asfound=asfound)
     return TEMPLATE % p
 
